@@ -196,6 +196,8 @@ static const b_cfg_t bcfgs[] = {
     { V_TLS12, KX_ECDHE_RSA, 0, 1, 1, "tls12-ecdhe-rsa-clientauth-tickets" },
     { V_TLS11, KX_RSA, 0, 0, 0, "tls11-rsa" },
     { V_TLS12, KX_ECDHE_ECDSA, 0, 0, 0, "tls12-ecdhe-ecdsa" },
+    { V_TLS12, KX_RSA, 0, 0, 2, "tls12-rsa-ticket-asked-server-has-none" },
+    { V_TLS12, KX_ECDHE_RSA, 0, 0, 1, "tls12-ecdhe-rsa-tickets" },
 };
 #define NBCFG ((int) (sizeof(bcfgs) / sizeof(bcfgs[0])))
 enum { B_NONE = 0, B_DELETE, B_DUP, B_SWAP, B_INJECT_HS, B_INJECT_CCS, B_INJECT_FIN, B_NK };
@@ -261,6 +263,7 @@ static void b_run(const b_case_t *bc, mx_result_t *r, int record_honest)
     static world_t w;
     int turn = 0, step = 0, dtls = ver_is_dtls(B->ver), maj, min, guard = 0, victim = -1;
     unsigned char rec[600], body[64];
+    int inj_rtype = -1, inj_htype = -1, inj_alive = 0, inj_legal = 0;
     memset(&c, 0, sizeof(c));
     c.ver = B->ver; c.kx = B->kx; c.suite = B->suite; c.client_auth = B->cauth; c.tickets = B->tickets;
     rx_hash[0] = rx_hash[1] = 0;
@@ -284,6 +287,21 @@ static void b_run(const b_case_t *bc, mx_result_t *r, int record_honest)
                 break;
             }
             victim = 1 - d;
+            if (bc->kind == B_INJECT_HS || bc->kind == B_INJECT_CCS || bc->kind == B_INJECT_FIN)
+            {
+                /* is the injected unit what the victim legitimately expects next?  (then the handshake goes on and the
+                   surplus shows at the honest copy; judged at completion) */
+                rec_t *h = &w.wire[d].r[w.wire[d].head];
+                int hh = dtls ? 13 : 5, secure = w.s[victim].ssl && (w.s[victim].ssl->flags & SSL_FLAGS_READ_SECURE);
+                inj_rtype = bc->kind == B_INJECT_CCS ? 20 : 22;
+                inj_htype = bc->kind == B_INJECT_CCS ? -1 : bc->kind == B_INJECT_FIN ? 20 : bc->t;
+                inj_legal = h->p[0] == inj_rtype && (inj_rtype == 20 || (!secure && h->len > hh && h->p[hh] == inj_htype));
+                /* the optional CertificateRequest: ServerHelloDone in its place is the legal flight without client authentication */
+                if (h->p[0] == 22 && !secure && h->len > hh && h->p[hh] == 13 && inj_rtype == 22 && inj_htype == 14)
+                {
+                    inj_legal = 1;
+                }
+            }
             switch (bc->kind)
             {
             case B_DELETE:
@@ -334,6 +352,7 @@ static void b_run(const b_case_t *bc, mx_result_t *r, int record_honest)
                 len = mk_record(rec, dtls, 22, maj, min, 0, 30 + (uint64_t) step, body, hl);
                 world_feed(&w, victim, rec, len);
                 if (!was) rx_note(&w, victim, rec, len);
+                inj_alive = !was && w.s[victim].err_rc >= 0 && w.s[victim].ssl->err == SSL_ALERT_NONE;
                 break;
             }
             case B_INJECT_CCS:
@@ -343,6 +362,7 @@ static void b_run(const b_case_t *bc, mx_result_t *r, int record_honest)
                 len = mk_record(rec, dtls, 20, maj, min, 0, 31 + (uint64_t) step, body, 1);
                 world_feed(&w, victim, rec, len);
                 if (!was) rx_note(&w, victim, rec, len);
+                inj_alive = !was && w.s[victim].err_rc >= 0 && w.s[victim].ssl->err == SSL_ALERT_NONE;
                 break;
             }
             }
@@ -386,6 +406,17 @@ static void b_run(const b_case_t *bc, mx_result_t *r, int record_honest)
                     s ? "server" : "client", bdname[bc->kind], bc->step, bc->t);
             }
         }
+    }
+    /* TLS: a handshake-phase unit that is not the one expected next must be fatal where it arrives (the property's "any
+       missing, repeated, reordered, premature or foreign message produces a fatal alert").  Not judged: DTLS (stray
+       datagrams may be discarded silently, C16) and a HelloRequest towards a client (RFC 5246 7.4.1.1: ignored while a
+       handshake is in progress). */
+    if (!r->violation && inj_alive && !inj_legal && !dtls && !(inj_rtype == 22 && inj_htype == 0 && victim == 0))
+    {
+        r->violation = 1;
+        snprintf(r->key, sizeof(r->key), "%s|%s|%s|illegal-unit-not-fatal", B->name, victim ? "server" : "client", bdname[bc->kind]);
+        snprintf(r->what, sizeof(r->what), "%s %s went on with its handshake after a %s that is not the unit expected at step %d (handshake type %d): no fatal alert, no error",
+            B->name, victim ? "server" : "client", bdname[bc->kind], bc->step, inj_htype);
     }
     world_free(&w);
 }
